@@ -450,7 +450,8 @@ func genC12(t *rapid.T) *Bundle {
 	case "nested_from":
 		q = fmt.Sprintf("SELECT v, w FROM `%s.n`", T)
 	case "in_subquery":
-		q = fmt.Sprintf("SELECT %s FROM %s WHERE id IN (SELECT v FROM n)", g.items("", true), T)
+		// (a subquery with more than one column is no operand of IN: whatever the engine does with it, it does it every time)
+		q = fmt.Sprintf("SELECT %s FROM %s WHERE id IN (%s)", g.items("", true), T, g.pick("in_sub_form", "SELECT v FROM n", "SELECT v FROM n", "SELECT v, w FROM n", "SELECT * FROM n", "SELECT id, b FROM `<-"+root+"u`"))
 	}
 	exp := c12Expect{Query: q, SeqFixed: seq, Sites: g.sites, Shape: shape}
 	sim := drawSim(t, "")
